@@ -3,12 +3,12 @@ CONSTANTS
   MaxH = 10
   Page = 3
   TSet = {0}
-  RSet = {}
-  RUB = FALSE
+  RSet = {3, 4, 5, 6, 7, 8}
+  RUB = TRUE
   MTB = 1
   GCP = 1
   MaxCrash = 3
-  MaxReset = 2
+  MaxReset = 0
   Dev = {}
   Depth = 14
 INVARIANT Emit
